@@ -177,7 +177,9 @@ def write_evidence(prop, meta, ctx, results, viol, known_hits, errors,
         "explanation": meta["explanation"],
         "trusted_base": meta.get("trusted_base", []),
         "rules": [
-            {"id": r.rule, "instances": len(r.instances),
+            {"id": r.rule,
+             "clause": (core.RULES.get(r.rule) or (None, None, ""))[2],
+             "instances": len(r.instances),
              "obligations": r.obligations, "discharged": r.discharged,
              "findings": [f.to_json() for f in r.findings],
              "notes": r.notes}
